@@ -284,7 +284,9 @@ CmpAtDay(post, s, n, keep) ==
       c == IF IsNaive(s) THEN "unique" ELSE Classify(Z(s.z), WDS(w))
   IN IF post.k = "exc" THEN << <<"unexpected-exception", post.names>> >>
      ELSE IF post.k # "dt" THEN << <<"kind", post.k>> >>
-     ELSE IF c = "repeated"
+     ELSE \* the calendar day of the result, on its own: whatever happens to the time of day on anomalous days
+          V("date", <<post.w[1], post.w[2], post.w[3]>> = <<w[1], w[2], w[3]>>, <<w[1], w[2], w[3]>>) \o
+          IF c = "repeated"
           THEN V("class", post.cls = "DateTime", "DateTime") \o V("zone", ZRef(post.z) = s.z, s.z)
                \o V("wall", post.w = w, w) \o V("offset", post.off = OffOf(DT(s.z, post.w, post.f)), "tz database")
           ELSE CmpDT(post, Construct(s.z, w, 1))
